@@ -6,6 +6,7 @@ import ChythonModel.Proofs.C10Attach
 import ChythonModel.Proofs.C10Half
 import ChythonModel.Proofs.C10HalfTrunc
 import ChythonModel.Proofs.C10PerceiveMain
+import ChythonModel.Proofs.C10Terminals
 /-!
 # C10 — binary pack format: lossless round trip, stable published layout
 
@@ -19,6 +20,7 @@ the handshake — is derived from the symmetry: `Proofs.C10.handshake`.)
 -/
 namespace ChythonModel.Props.C10
 open ChythonModel.Gen ChythonModel.Model.Pack ChythonModel.Proofs.C10 ChythonModel.Spec.PackLayout
+open ChythonModel.Spec.Cumulene
 
 /-! ## G — regenerated tables -/
 
@@ -354,6 +356,57 @@ theorem unmarked_roundtrip (atoms : List PAtom) (p : Perceived) (hp : perceive a
     simp only [attach] at hatt
     simp only [Except.map, hatt]
 
+/-! ### what is perceived, against the chemistry definition (`Spec/Cumulene.lean`) -/
+
+/-- the literals the perception code uses (regenerated from `stereo.py` / the element classes on every run) are the ones of
+    the chemistry definition: a double bond has order 2, an `sp` atom two neighbours, hydrogen is Z = 1; every element that
+    forms double bonds forms single bonds; carbon does, hydrogen and "no atom" do not -/
+theorem stereo_constants_match_spec :
+    dblOrder = doubleOrder ∧ cumMaxNbrs = spNeighbours ∧ stereoH = hydrogenZ ∧ skipOrder = 3 ∧ anyOrder = 8 ∧
+    (∀ z ∈ formsDouble, z ∈ formsSingle) ∧ formsDouble.contains 6 = true ∧ formsDouble.contains 1 = false ∧
+    formsDouble.contains 0 = false ∧ (∀ z ∈ formsSingle, 1 ≤ z ∧ z ≤ 118) := by decide
+
+/-- **`cumulenes` reports chains of cumulated double bonds**: on every well-formed graph each reported path is a maximal
+    chain in the sense of the chemistry definition (linked by double bonds between double-bond-forming atoms, inner atoms with
+    exactly two neighbours, not extendable at either end), or a single double bond of a piece that ran into an atom with more
+    than two neighbours (`BrokenPiece`: the code reports those double bonds one by one). -/
+theorem cumulenes_are_chains (atoms : List PAtom) (g : GraphOK atoms) (paths : List (List Nat))
+    (h : cumulenes atoms = .ok paths) : ∀ p ∈ paths, MaximalChain can atoms p ∨ BrokenPiece atoms p :=
+  cumulenes_sound g h
+
+/-- full statement: every entry of `_stereo_cis_trans_terminals` gives the two ends of a MAXIMAL chain with an odd number of
+    double bonds. Not provable for the code as it is: next to an atom with more than two neighbours and two double bonds the
+    code treats each double bond of the walked piece as a unit of its own (`BrokenPiece`, e.g. `CC=S(=O)(C)C`, `CC=C=S(C)(C)=O`). -/
+def TerminalsAreMaximalChainEnds : Prop :=
+  ∀ (atoms : List PAtom), GraphOK atoms → ∀ p, perceive atoms = .ok p → ∀ k tn tm, p.terminals.lookup k = some (tn, tm) →
+    ∃ path ∈ p.cumulenes, MaximalChain can atoms path ∧ IsCisTransUnit path ∧ path.head? = some tn ∧
+      path.getLast? = some tm ∧ k ∈ keys4 path
+
+/-- **`_stereo_cis_trans_terminals[k] = (tn, tm)`**: `tn`, `tm` are the first and last atom of a reported chain with an ODD
+    number of double bonds, `k` is one of its two ends or two central atoms, and the chain is maximal — or (the class excluded
+    from `TerminalsAreMaximalChainEnds`) a double bond next to an atom with more than two neighbours. -/
+theorem terminals_are_chain_ends_partial (atoms : List PAtom) (g : GraphOK atoms) (p : Perceived)
+    (hp : perceive atoms = .ok p) (k tn tm : Nat) (hl : p.terminals.lookup k = some (tn, tm)) :
+    ∃ path ∈ p.cumulenes, IsCisTransUnit path ∧ path.head? = some tn ∧ path.getLast? = some tm ∧ k ∈ keys4 path ∧
+      (MaximalChain can atoms path ∨ BrokenPiece atoms path) :=
+  terminals_entry g hp hl
+
+/-- **`_stereo_cis_trans_centers[k] = (c1, c2)`**: `k` is an end of a reported chain with an odd number of double bonds and
+    `c1 = c2` is its central double bond -/
+theorem centers_are_central_bonds (atoms : List PAtom) (g : GraphOK atoms) (p : Perceived)
+    (hp : perceive atoms = .ok p) (k c1 c2 : Nat) (hl : p.centers.lookup k = some (c1, c2)) :
+    ∃ path ∈ p.cumulenes, IsCisTransUnit path ∧ (path.head? = some k ∨ path.getLast? = some k) ∧
+      path[path.length / 2 - 1]? = some c1 ∧ path[path.length / 2]? = some c2 ∧ DoubleBond can atoms c1 c2 :=
+  centers_entry g hp hl
+
+/-- **`_stereo_allenes_terminals[c] = (tn, tm)`**: the two ends of a MAXIMAL chain with an EVEN number of double bonds whose
+    central atom is `c` (no exception: a broken piece has one double bond) -/
+theorem allene_terminals_are_chain_ends (atoms : List PAtom) (g : GraphOK atoms) (p : Perceived)
+    (hp : perceive atoms = .ok p) (c tn tm : Nat) (hl : p.allenes.lookup c = some (tn, tm)) :
+    ∃ path ∈ p.cumulenes, MaximalChain can atoms path ∧ IsAxialUnit path ∧ path.head? = some tn ∧
+      path.getLast? = some tm ∧ path[path.length / 2]? = some c :=
+  allenes_entry g hp hl
+
 /-- but-2-ene with a mark, and hexa-2,3,4-triene (three cumulated double bonds) with a mark on the central bond -/
 def exAlkene : List PAtom :=
   [{ num := 1, z := 6, iso := none, stereo := none, x := 0, y := 0, h := some 3, charge := 0, radical := false, nbrs := [⟨2, 1, none⟩] },
@@ -390,6 +443,11 @@ example : ∀ atoms ∈ [exAlkene, exTriene], ∃ p, perceive atoms = .ok p ∧ 
   | ok p =>
     simp only [hp, Bool.and_eq_true, Bool.not_eq_true', List.isEmpty_eq_false_iff] at this
     exact ⟨p, rfl, wfb_sound _ this.1.1.1, marksOKb_sound _ _ this.1.1.2, keysDisjointb_sound _ this.1.2, this.2⟩
+
+/-- the chain theorems are not vacuous: the triene is a well-formed graph with dictionary entries -/
+example : GraphOK exTriene ∧ (∃ p, perceive exTriene = .ok p ∧ p.terminals.lookup 40 = some (20, 50) ∧
+    p.centers.lookup 50 = some (30, 40)) :=
+  ⟨(wf_of_wfb ⟨exTriene, [(20, 20, 50), (50, 20, 50), (40, 20, 50), (30, 20, 50)]⟩ (by decide +kernel)).graph, _, rfl, rfl, rfl⟩
 
 example : perceive exTriene = .ok ⟨[[20, 30, 40, 50]], [([20, 30, 40, 50], 10, 60, none, some 70)],
     [(20, 20, 50), (50, 20, 50), (40, 20, 50), (30, 20, 50)], [(20, 30, 40), (50, 30, 40)], []⟩ := by rfl
